@@ -1,6 +1,8 @@
 import KoordVerif.Model.C09
 import KoordVerif.Model.C09Plugin
 import KoordVerif.Model.C09Reconcile
+import KoordVerif.Model.C09Strategy
+import KoordVerif.Proofs.C09Ext4
 /-
 C09 — property theorems (DESIGN.md §4 C09).  The float64 operations are a parameter `F`; the
 theorems assume only the algebraic facts collected in `FloatOK` (the harness tests them on every
@@ -1752,5 +1754,148 @@ def exNR : NRes := { bc := some 40000000, bm := some 5000, mc := some 1000, mm :
 example : (reconcileNR exactOps exactDiff 100 300 0 NState.init exNR).1 =
     { r := { pub := { bc := some 48000, bm := some 5, mc := some 1, mm := some 2 }, lastSync := some 0 }, ratio := .pct 120,
       origin := some (48000, 5) } := by decide
+
+
+/-! ### 20. which strategy ONE node gets (extension 4; Model/C09Strategy.lean) -/
+
+/-- The strategies (and enabled flags) node `k`'s reconciles compute over ANY multi-node history of ConfigMap events,
+    metadata changes and reconciles depend only on the ConfigMap events and on node `k`'s own events: dropping every
+    event of every other node (their annotation / label changes, their reconciles, in any order and number) changes nothing. -/
+theorem node_strategy_independent_of_other_nodes (k : Nat) (st : CState) (es es' : List CEvent)
+    (h : es.filter (fun e => e.concerns k) = es'.filter (fun e => e.concerns k)) :
+    stratLog k st es = stratLog k st es' := by
+  rw [stratLog_filter k es st, stratLog_filter k es' st, h]
+
+/-- a reconcile never changes the shared cache (the aliasing check C09:config-cache-mutated observes this on the real one) -/
+theorem reconcile_keeps_cache (st : CState) (k : Nat) : (cfgStep st (.reconcile k)).1.cache = st.cache := rfl
+
+/-- the documented layering, field by field: node annotation, else the first matching nodeConfigs entry, else the cluster
+    strategy (fields 1, 2 — the reclaim thresholds — are additionally overridden by the ratio labels). -/
+theorem resolve_field_layering (c : CfgCache) (m : NodeMeta) (i : Nat) (hl1 : m.lblCpu = none) (hl2 : m.lblMem = none)
+    (hlen : ∀ e ∈ c.nodes, e.2.length ≤ c.cluster.length)
+    (hanno : ∀ a, m.anno = some a → a.length ≤ c.cluster.length) :
+    fld (resolve c m) i =
+      match (m.anno.bind (fun a => fld a i)) with
+      | some v => some v
+      | none =>
+        match (firstMatch m.pool c.nodes).bind (fun n => fld n i) with
+        | some v => some v
+        | none => fld c.cluster i := by
+  unfold resolve
+  simp only [hl1, hl2]
+  have hs1 : ∀ n, firstMatch m.pool c.nodes = some n → n.length ≤ c.cluster.length := by
+    intro n hn
+    obtain ⟨sel, hin, _⟩ := firstMatch_mem _ _ _ hn
+    exact hlen _ hin
+  cases hfm : firstMatch m.pool c.nodes with
+  | none =>
+    cases ha : m.anno with
+    | none => simp
+    | some a =>
+      simp only [Option.bind]
+      rw [fld_mergeV _ _ _ (hanno a ha)]
+      cases fld a i <;> simp
+  | some n =>
+    have hn := hs1 n hfm
+    cases ha : m.anno with
+    | none =>
+      simp only [Option.bind]
+      rw [fld_mergeV _ _ _ hn]
+      cases fld n i <;> simp
+    | some a =>
+      simp only [Option.bind]
+      have hlen2 : a.length ≤ (mergeV c.cluster n).length := by
+        rw [mergeV_length _ _ hn]; exact hanno a ha
+      rw [fld_mergeV _ _ _ hlen2, fld_mergeV _ _ _ hn]
+      cases fld a i <;> cases fld n i <;> simp
+
+/-- a node without a matching entry, annotation and ratio labels gets exactly the cluster strategy — in particular the
+    cluster's caps, whatever other nodes override. -/
+theorem resolve_no_override (c : CfgCache) (m : NodeMeta) (h1 : ∀ e ∈ c.nodes, e.1.matchesPool m.pool = false)
+    (h2 : m.anno = none) (h3 : m.lblCpu = none) (h4 : m.lblMem = none) : resolve c m = c.cluster := by
+  unfold resolve
+  simp [firstMatch_none _ _ h1, h2, h3, h4]
+
+/-- the loaded cluster strategy: the declared field, else the default -/
+theorem load_cluster_field (dc : StratV) (dn : List (Sel × StratV)) (c : CfgCache) (i : Nat) (hl : dc.length ≤ nStratFields)
+    (h : loadCfg (some (dc, dn)) = some c) :
+    fld c.cluster i = match fld dc i with | some v => some v | none => fld defaultV i := by
+  unfold loadCfg at h
+  simp only at h
+  split at h
+  · simp at h
+  · simp at h; subst h
+    exact fld_mergeV defaultV dc i (by simpa [defaultV, nStratFields] using hl)
+
+/-- whatever is loaded is valid: the cluster strategy and every entry (an invalid merged entry falls back to the cluster's) -/
+theorem load_valid (d : Declared) (c : CfgCache) (h : loadCfg d = some c) :
+    validV c.cluster = true ∧ ∀ e ∈ c.nodes, validV e.2 = true := by
+  unfold loadCfg at h
+  cases d with
+  | none => simp at h; subst h; exact ⟨by decide, by simp [defaultCache]⟩
+  | some p =>
+    obtain ⟨dc, dn⟩ := p
+    simp only at h
+    split at h
+    · simp at h
+    · rename_i hv
+      simp at h; subst h
+      have hv' : validV (mergeV defaultV dc) = true := by simpa using hv
+      refine ⟨hv', ?_⟩
+      intro e he
+      simp only [List.mem_map] at he
+      obtain ⟨x, _, rfl⟩ := he
+      simp only
+      split
+      · assumption
+      · exact hv'
+
+/-- the percentage cap of the statement for a node WITHOUT overrides is the cluster's declared cap: the published batch
+    amount is at most `capacity * pct` for the pct the ConfigMap declares at cluster level. -/
+theorem node_cap_bound_no_override (F : FloatOps) (k : PrioConsts) (c : CfgCache) (m : NodeMeta) (n : NodeIn) (hs : List HostApp)
+    (pods : List PodIn) (ms : List Metric) (d : Dim) (pct : Int)
+    (h1 : ∀ e ∈ c.nodes, e.1.matchesPool m.pool = false) (h2 : m.anno = none) (h3 : m.lblCpu = none) (h4 : m.lblMem = none)
+    (hcap : fld c.cluster (match d with | .cpu => 3 | .mem => 4) = some pct) :
+    nodeBatch F k (stratOfV (resolve c m)) n hs pods ms d ≤ F.mulPct (n.cap d) pct := by
+  apply batch_pct_cap
+  rw [resolve_no_override c m h1 h2 h3 h4]
+  cases d <;> simpa [stratOfV, Strategy.cap] using hcap
+
+/-- … and for ANY node: the cap is the one the layering gives (`resolve_field_layering` says which). -/
+theorem node_cap_bound (F : FloatOps) (k : PrioConsts) (c : CfgCache) (m : NodeMeta) (n : NodeIn) (hs : List HostApp)
+    (pods : List PodIn) (ms : List Metric) (d : Dim) (pct : Int)
+    (hcap : fld (resolve c m) (match d with | .cpu => 3 | .mem => 4) = some pct) :
+    nodeBatch F k (stratOfV (resolve c m)) n hs pods ms d ≤ F.mulPct (n.cap d) pct := by
+  apply batch_pct_cap
+  cases d <;> simpa [stratOfV, Strategy.cap] using hcap
+
+/-! #### why the cache must be copied deeply: the seeded shared-cell variant is NOT independent
+
+`resolveShared` is GetNodeColocationStrategy when the "copy" of the cluster strategy shares the cell of field `i` with the
+cache (a DeepCopyInto that does not clone that pointer): the merge writes the node's override through to the cache. -/
+def resolveShared (i : Nat) (c : CfgCache) (m : NodeMeta) : CfgCache × StratV :=
+  let s := resolve c m
+  (match fld s i with
+   | some v => if (fld c.cluster i).isSome then { c with cluster := setFld c.cluster i (some v) } else c
+   | none => c, s)
+
+def exCache : CfgCache := { cluster := mergeV defaultV [some 1, none, none, some 20, some 30], nodes := [] }
+def exNodeA : NodeMeta := { anno := some [none, none, none, some 80] }
+def exNodeB : NodeMeta := {}
+
+/-- cluster cap 20 %, node A overrides it to 80 % by annotation, node B has no override: after A's strategy was computed
+    with the shared cell, B gets 80 % instead of the declared 20 %. -/
+theorem shared_cell_breaks_independence :
+    fld (resolve (resolveShared 3 exCache exNodeA).1 exNodeB) 3 = some 80 ∧ fld (resolve exCache exNodeB) 3 = some 20 := by
+  decide
+
+example : fld (resolve exCache exNodeA) 3 = some 80 := by decide
+example : nodeEnabled exCache exNodeA = true := by decide
+/-- non-vacuity of `node_strategy_independent_of_other_nodes`: node 1's override and reconciles do not show in node 0's log -/
+example : stratLog 0 { cache := exCache, metas := fun _ => {} } [.nodeMeta 1 exNodeA, .reconcile 1, .reconcile 0] =
+    stratLog 0 { cache := exCache, metas := fun _ => {} } [.reconcile 0] := by decide
+example : (loadCfg (some ([some 1, none, none, some (-5)], []))).isNone = true := by decide
+example : ((loadCfg (some ([some 1, none, none, some 20], [(.pool 0, [none, none, none, some (-5)])]))).map
+    (fun c => c.nodes.map (fun e => fld e.2 3))) = some [some 20] := by decide
 
 end KoordVerif.C09
